@@ -448,7 +448,8 @@ theorem nightforc_some (c0 : K) (rest : List K) (n : Nat) (csurf a1 a2 pL cL t :
 
 /-- T4 (night). When the loop count equals the number of cells and
     `charLength = count · paralLength` (both true for objects built by `UBLDef.__init__` with an
-    integer `charLength` up to 62 498 m, see evidence), the returned boundary-layer temperature
+    integer `charLength` up to 62 498 m: proved from the constructor's arithmetic as
+    `night_mean_of_constructor` in `Props/C15Inputs.lean`), the returned boundary-layer temperature
     is the arithmetic mean of the returned cells, and no cell is lost. -/
 theorem night_mean (cells : List K) (n : Nat) (csurf a1 a2 pL cL t : K) (cs : List K)
     (h : nightforc cells n csurf a1 a2 pL cL = some (t, cs))
